@@ -54,6 +54,11 @@ def gen_case(rng, spec):
     if kind == "symbol":
         # state names are strings over the alphabet, as WFSA.from_string / from_strings produce
         pool = [""] + alpha + [a + b for a in alpha[:2] for b in alpha[:2]]
+        if rng.random() < 0.5:
+            # names drawn from ONE pool for every case of the process: the same name is an alphabet symbol in one
+            # automaton and an ordinary state name in the next
+            pool = ["a", "b", "é", "€", "ü", "è", ""] + [x for x in pool if x not in ("a", "b", "é", "€", "ü", "è", "")]
+            pool = pool[: max(m["n"], 4)]
         rng.shuffle(pool)
         m["names"] = pool[: m["n"]]
     elif kind == "int":
@@ -67,6 +72,9 @@ def gen_case(rng, spec):
     fs = "".join(rng.choice(alpha) for _ in range(rng.randint(1, 3)))
     # grammar with multi-character terminals
     terms = sorted({rng.choice(alpha) for _ in range(2)} | {rng.choice(alpha) + rng.choice(alpha)} | {alpha[0]})
+    if rng.random() < 0.25:
+        # terminals that are NOT in a Unicode normal form: the byte grammar must encode exactly these code points
+        terms = sorted(set(terms) | set(rng.sample(["e\u0301", "\u2126", "\u212b", "\u00e9", "\u03a9", "A\u030a"], 2)))
     g = GG.gen_grammar(rng, max_nt=3, max_t=1, max_rules=7, vocab="chars")
     # substitute the generated single terminal 'a' by random terminals from `terms`
     rules = []
